@@ -60,3 +60,41 @@ class dd_branch_at:
     def body(u, ns, o, k, i):
         if k < i:
             dd_branch_at(u, ns, o, k + 1, i)
+
+
+@lemma("any_valid_at")
+class any_valid_at:
+    """a datum that validates against branch i validates against the union (searching from k <= i)"""
+    types = dict(d="py", u="list", ns="dict", o="dict", k="int", i="int")
+    requires = lambda d, u, ns, o, k, i: 0 <= k and k <= i and i < len(u) and A.VALID(d, u[i], ns, o)
+    ensures = lambda d, u, ns, o, k, i: A.ANY_VALID(d, u, ns, o, k)
+    decreases = lambda d, u, ns, o, k, i: i - k
+
+    def body(d, u, ns, o, k, i):
+        if k < i:
+            any_valid_at(d, u, ns, o, k + 1, i)
+
+
+@lemma("leafy_at")
+class leafy_at:
+    types = dict(u="list", ns="dict", k="int", i="int")
+    requires = lambda u, ns, k, i: A.LEAFY_ALL(u, ns, k) and 0 <= k and k <= i and i < len(u)
+    ensures = lambda u, ns, k, i: A.LEAFY(u[i], ns)
+    decreases = lambda u, ns, k, i: i - k
+
+    def body(u, ns, k, i):
+        if k < i:
+            leafy_at(u, ns, k + 1, i)
+
+
+@lemma("all_str_at")
+class all_str_at:
+    """every element of a list of strings is a string"""
+    types = dict(xs="list", k="int", i="int")
+    requires = lambda xs, k, i: A.ALL_STR(xs, k) and 0 <= k and k <= i and i < len(xs)
+    ensures = lambda xs, k, i: isinstance(xs[i], str)
+    decreases = lambda xs, k, i: i - k
+
+    def body(xs, k, i):
+        if k < i:
+            all_str_at(xs, k + 1, i)
